@@ -375,13 +375,17 @@ def _encoder_model(ctx: Context):
             m["problems"].append((n, "a bare `yield` / `yield from` - emitted bytes not visible as a term"))
             continue
         v = T.of(cfg, n, y.value)
-        packs, sl, bad = [], None, None
+        if v[0] == "call" and v[1] in (("glob", "bytes"), ("glob", "bytearray")) and len(v[2]) == 1 and not v[3]:
+            v = v[2][0]  # bytes(<concatenation>) is the concatenation
+        packs, sl, bad, whole = [], None, None, None
         for p in _parts(v):
             pk = _pack(p)
-            if pk is not None and sl is None:
+            if pk is not None and sl is None and whole is None:
                 packs.append(pk)
-            elif _slice(p) is not None and sl is None:
+            elif _slice(p) is not None and sl is None and whole is None:
                 sl = _slice(p)
+            elif strip_sites(p)[0] == "param" and sl is None and whole is None and packs:
+                whole = strip_sites(p)  # the complete body in one fragment (a single-write fast path)
             else:
                 bad = p
         if bad is not None or not packs:
@@ -391,9 +395,9 @@ def _encoder_model(ctx: Context):
         if any(x is None for x in fmts):
             m["problems"].append((n, f"header packed with a native-alignment format {[pk[0] for pk in packs]}"))
             continue
-        kind = "bare" if sl is None else ("first" if sl[1] is None or _ci(sl[1]) == 0 else "cont")
+        kind = "whole" if whole is not None else "bare" if sl is None else ("first" if sl[1] is None or _ci(sl[1]) == 0 else "cont")
         m["yields"].append({
-            "node": n, "kind": kind, "term": v, "slice": sl,
+            "node": n, "kind": kind, "term": v, "slice": sl, "whole": whole,
             "order": {x[0] for x in fmts}, "fields": tuple(c for x in fmts for c in x[1]),
             "args": tuple(a for pk in packs for a in pk[1]), "size": sum(_size(pk[0]) for pk in packs),
         })
@@ -447,6 +451,10 @@ def _b1(ctx: Context) -> None:
         ck.unknown(R, "_write_pdu: no argument of encode_pdu comes from _determine_fragment_size (call not resolved / inlined)", ctx.loc(wf, wn))
         return
     FS = ("param", fs_param)
+
+    # ---- a fragment that carries the whole body: header bytes + len(body) <= negotiated size must follow from its guard
+    for yw in [y for y in ys if y["kind"] == "whole"]:
+        _bound_whole(ctx, f, cfg, yw, FS, fs_param)
 
     # ---- first fragment
     want_fields = SPEC.BLE_REQUEST_HEADER[1] + SPEC.BLE_BODY_LENGTH[1]
@@ -547,6 +555,66 @@ def _b1(ctx: Context) -> None:
 
     # ---- overhead of encryption
     _b1_overhead(ctx, wf, wcfg, wn, fs_term)
+
+
+def _len_value(t):
+    """Constant byte length of a term: len(<packed struct>) or an int constant."""
+    if _ci(t) is not None:
+        return _ci(t)
+    if _is_call_to(t, "len") and len(t[2]) == 1:
+        pk = _pack(strip_sites(t[2][0]))
+        if pk is not None:
+            return _size(pk[0])
+    return None
+
+
+def _bound_whole(ctx: Context, f, cfg, yw, FS, fs_param: str) -> None:
+    """`yield header + body` (no slice): needs len(body) <= FS - K on every path to it with K >= packed header bytes."""
+    ck = ctx.ck
+    T = ctx.terms
+    n, body, hdr = yw["node"], yw["whole"], yw["size"]
+    best = None  # the largest body length any guard on the way still lets through, as FS - K  ->  smallest K
+    guards = []
+    for tn in cfg.nodes:
+        if tn.kind != "test":
+            continue
+        t = strip_sites(T.of(cfg, tn, tn.exprs[0]))
+        if t[0] != "cmp" or len(t[1]) != 1:
+            continue
+        op, (a, b) = t[1][0], t[2]
+        if _is_len_of(b, body):  # E <op> len(body)  ->  len(body) <mirror> E
+            a, b, op = b, a, {"Lt": "Gt", "Gt": "Lt", "LtE": "GtE", "GtE": "LtE"}.get(op, op)
+        if not _is_len_of(a, body):
+            continue
+        if not (b[0] == "binop" and b[1] == "Sub" and strip_sites(b[2]) == FS):
+            continue
+        k = _len_value(strip_sites(b[3]))
+        if k is None:
+            continue
+        # outcome under which len(body) <= FS - K'  holds
+        if op == "LtE":
+            guards.append((ctx.edges(cfg, tn, "T"), k))
+        elif op == "Lt":
+            guards.append((ctx.edges(cfg, tn, "T"), k + 1))
+        elif op == "Gt":
+            guards.append((ctx.edges(cfg, tn, "F"), k))
+        elif op == "GtE":
+            guards.append((ctx.edges(cfg, tn, "F"), k + 1))
+    for edges, k in guards:
+        if cfg.find_path(cfg.entry.id, n.id, avoid_edges=edges) is None:
+            best = k if best is None else max(best, k)
+    if best is None:
+        ck.violated("C17.B1", f"{ctx.fkey(f)}:whole:unbounded",
+                    f"encode_pdu: `{n.text()[:70]}` emits the whole body in one fragment without a test that bounds len(body) by {fs_param} - K: "
+                    "a body larger than the negotiated size goes out in a single oversized write", ctx.loc(f, n), None,
+                    "a fragment carrying the whole body is guarded by len(body) <= size - header bytes")
+        return
+    ck.check("C17.B1", best >= hdr,
+             f"single-fragment path: len(body) <= {fs_param} - {best} and {hdr} header bytes are packed: the fragment fits",
+             f"{ctx.fkey(f)}:whole:bound",
+             f"encode_pdu: the single-fragment path is taken for len(body) <= {fs_param} - {best} but the fragment is {hdr} header bytes + the body: "
+             f"bodies of {fs_param} - {hdr - 1} .. {fs_param} - {best} bytes produce a fragment of up to {fs_param} + {hdr - best} bytes (exceeds the negotiated size)",
+             ctx.loc(f, n))
 
 
 def _bound(ctx: Context, f, n, which: str, k: int, hdr: int, fs_param: str) -> None:
